@@ -184,17 +184,165 @@ PROPS["C03"] = {
     "design_ref": "DESIGN.md section 4 C03",
 }
 
+PROPS["C17"] = {
+    "title": "Every opening-book line is a legal game (table-safety and termination clause)",
+    "groups": [{"crate": "core", "module": "c17", "timeout_q": 900, "timeout_t": 3000, "mem_q": 30}],
+    "functions": ["chess_lookup::BookMovesIter::next", "BookMoves::into_iter", "INITIAL_BOOOK_MOVES / EMPTY_BOOK_MOVES", "lichess_book::BOOK (real 87204-word table)"],
+    "bounds": "none for the decided clause: one symbolic node index over all 87204 table positions (also positions no traversal reaches)",
+    "outside": "NOT DECIDED: that each book move is legal in the position reached from the standard start (the position at a node is a function of the whole path, a finite walk of ~29k concrete games with no symbolic variable: "
+               "inside CBMC that is concrete interpretation of ~10^9 steps, natively it would be a different technique). A mutated move word that stays a pair of squares is therefore not detected by this check.",
+    "stubs": [], "assumptions": ["hook: BookMoves::verif_from_index to start at an arbitrary node (fields are private)"],
+    "level_text": "For a symbolic node index (all 87204 at once, real table, pointer/overflow/unwrap checks on) one step of the book iterator is shown to read only inside the table, to decode squares < 64, and to move both the child cursor and the sibling cursor strictly downwards; "
+                  "a strictly decreasing natural-number measure means every traversal from every node terminates inside the table.",
+    "level_note": "Only the 'traversal terminates and stays inside the table' clause of C17 is decided; the legality clause is stated as outside (see evidence.outside_bounds and DESIGN.md).",
+    "design_ref": "DESIGN.md section 4 C17",
+}
+
+PROPS["C10"] = {
+    "title": "Move iterator honours its size and filtering contracts",
+    "groups": [{"crate": "core", "module": "c10", "flags": NODEF, "timeout_q": 900, "timeout_t": 3000, "mem_q": 10}],
+    "functions": ["chess_movegen::MoveGen::{next,len,is_empty,size_hint,count,clone,set_mask,remove,remove_move}", "masked generation (legals_masked) is the symbolic destination mask of the C01 unit queries"],
+    "bounds_quick": "ONE operation from an ARBITRARY iterator state: <= 6 symbolic entries (source, destination set, promotion flag), cursor, mask, promotion cursor, under the representation invariant (len/size_hint: <= 4 entries - popcount sums); "
+                    "the operation's argument (mask / move) and a probe move symbolic. Induction over operations => sequences of any length and interleaving",
+    "bounds_thorough": "as quick with 18 entries (the list's capacity) for next and set_mask, 6 for len",
+    "outside": "lists longer than the entry bound (each operation is a loop over entries with an entry-local body); the engine's staged use is C11",
+    "stubs": [], "assumptions": ["representation invariant (entries before the cursor exhausted under the mask; a promotion group in progress belongs to the entry at the cursor; a move belongs to one entry) - established by the generator (asserted in the C01 unit queries) and shown preserved by every operation here"],
+    "level_text": "The abstract state of the iterator is the SET of moves it still owns (membership predicate for a symbolic probe move, no enumeration). From an arbitrary state satisfying the representation invariant one real operation is run and the abstract state after must be exactly what the set model prescribes: "
+                  "next yields an owned, mask-visible move and removes exactly it; len/size_hint/count/is_empty equal the number of moves still to come; set_mask loses nothing and exposes exactly the owned moves in the mask; remove/remove_move delete exactly those; clone is independent. The invariant is shown preserved, so any interleaving of any length is covered by induction.",
+    "level_note": "Two regions are recorded known findings (representation-inherent, see known_findings.json): set_mask during a partly yielded promotion group; remove_move of a promotion move. Three defects found by these queries were fixed (fix: commits).",
+    "design_ref": "DESIGN.md section 4 C10",
+}
+
+C06_FUNC = {"crate": "core", "module": "c06", "flags": NODEF + STUB, "timeout_q": 1500, "timeout_t": 3000, "mem_q": 12, "jobs": 8}
+PROPS["C06"] = {
+    "title": "FEN parsing is total and admits only playable positions",
+    "groups": [dict(C06_FUNC, only="^c06_")],
+    "functions": ["chess_movegen::Board::{validate,validate_en_passant,validate_castle_rights,opponent_in_check}, RawBoard::has_kings, BoardBuilder::build",
+                  "chess_movegen::fen::{parse_fen,parse_number,parse_whitespace,parse_dash,parse_castle_rights} on the fields after the placement"],
+    "bounds": "build()/validate: a FULLY symbolic board (eight 64-bit sets forming a partition, side, rights, en-passant file, clocks, hash) - accepted <=> C06's list, fields returned unchanged, documented error kind; <= 8 enemy sliders on the king's rays (loop bound of the pin computation that runs on acceptance). "
+              "Parser: every byte string of every length 0..=6 after a fixed two-king placement (side, rights, en-passant, clocks, trailing bytes: every error arm), and every 1..=5-byte clock field (accepted exactly for [spaces] 1-4 digits, value exact). Lengths are enumerated concretely, contents symbolic.",
+    "outside": "NOT DECIDED: the placement field on symbolic bytes. Measured: two symbolic bytes inside the 64-square loop already exceed 12 GB (the file counter becomes symbolic and the hand-written slice patterns fork on every byte; a symbolic slice LENGTH alone forks every pattern). "
+               "So 'never panics on arbitrary bytes' is decided for the five fields after the placement only, and 'decoded placement == text' only for concrete texts (c05_three_constructors_agree). Rust-level panics (overflow, index, unwrap) are checked; the parser contains no unsafe code.",
+    "stubs": [], "assumptions": ["the builder cannot assemble overlapping piece sets (place() refuses occupied squares): boards are symbolic partitions"],
+    "level_text": "Acceptance by validate()/build() is decided against C06's list for a fully symbolic board - one king per side, <= 16 pieces per side, side not to move not in check, rights only with king and rook at home, en-passant marker only behind an enemy pawn on its double-step rank - in both directions (accepted => playable, playable => accepted), with the error kind. "
+                  "The parser is shown total and exact on every byte string (bounded length) in the fields after the placement.",
+    "level_note": "The parser funnels every text into the same validate() that the builder query decides; what is not decided is the byte-level decoding of the placement field (stated).",
+    "design_ref": "DESIGN.md section 4 C05/C06",
+}
+PROPS["C05"] = {
+    "title": "FEN text and board are inverse representations",
+    "groups": [dict(C06_FUNC, only="^c05_")],
+    "functions": ["core::fmt::Display for chess_movegen::Board (piece runs, side, CastleRights::fmt, en-passant square, clocks through core::fmt)", "Board::standard, fen::parse_fen, BoardBuilder::{place,castle_rights,build} on the start position"],
+    "bounds": "writer: 5 concretised shapes (start position for either side, en-passant square for White to move and for Black to move, partial rights Kq) with both clocks symbolic inside a digit-count class (1-4 digits; all of 0..9999 is covered across the shapes); "
+              "the real writer's bytes and length are compared with a reference canonical text. Three constructors: concrete start position, all fields.",
+    "outside": "symbolic piece placement in the text (see C06: the parser cannot take symbolic placement bytes; the writer half alone is cheap but its run-length output makes the text length symbolic) - placements are concretised per shape; "
+               "the parser half of the round trip on 32-piece texts exceeds 12 GB even with only the clock digits symbolic and is decided on two-king texts in C06",
+    "stubs": [], "assumptions": ["reference canonical writer in the harness (run-length placement, side, rights KQkq order, en-passant target square, minimal decimal clocks)"],
+    "level_text": "The real FEN writer runs through core::fmt into a byte sink for a position with symbolic clocks and its output is compared byte for byte with a reference canonical FEN (this is what catches a wrong en-passant square, castling letter order or clock rendering); "
+                  "standard(), the parser and the builder are shown to produce identical boards (all fields incl. hash and derived state) for the start position.",
+    "level_note": "Weaker than designed: placement is concrete per shape (measured limits in `outside`). The round trip composes writer == reference (here) with parser(reference fields) (C06).",
+    "design_ref": "DESIGN.md section 4 C05/C06",
+}
+
+ENG = {"crate": "engine", "flags": NODEF + STUB, "timeout_q": 1500, "timeout_t": 3000, "mem_q": 30, "jobs": 1}
+ENG_STUBS = ["chess_movegen::Board::legals -> a symbolic move list under the iterator invariant, the same on every pass (that the real list is exactly the legal moves: C01; that iterating it yields each once: C10)",
+             "Engine::alphabeta at depth 1 -> oracle through the hook Timeout::verif_oracle: arbitrary score + 0..=2 timeout polls, contract A 'not a sentinel unless the limit has expired'",
+             "ThreeFold::get -> arbitrary count (only passed down to the search)", "MoveGen::set_mask -> its abstract effect (new mask, cursor rewound; the real raw-pointer compaction is C10/C07)",
+             "tracing::{Event::dispatch, DefaultCallsite::interest, __macro_support::__is_enabled, dispatcher::get_default} -> no event enabled (tracing's callsite registration trips an internal assertion of the Kani 0.68 compiler)"]
+PROPS["C11"] = {
+    "title": "Search returns a legal move whenever the time limit may expire",
+    "groups": [dict(ENG, module="c11", only="^c11_")],
+    "functions": ["chess_engine::Engine::{search,search_with::<White|Black>} - the iterative-deepening root loop (previous-best probe, capture stage, remaining moves, discard-on-expiry, commit-on-completed-pass, stop on mate / on empty list)", "BoardList::new", "Policy::{is_better,update_cutoff}"],
+    "bounds": "root move list: <= 2 entries, <= 2 moves (a promotion destination counts four); expiry at poll index k <= 2 (every instant inside the first passes: between the previous-best probe and the capture stage, inside a stage, after a pass), each search call consuming 0..=2 further polls; "
+              "plus the rule 'never during pass 0, always from pass 1 on' with <= 2 non-promotion moves. Loop unwinding 5 (unwinding assertions on).",
+    "outside": "the recursion below the root (abstracted by contract A - the real alphabeta level is NOT checked against A: running it needs move_unchecked + legals + eval in one query); longer move lists and later expiry instants (the pass structure repeats); wall-clock DurationTimeout; 65536 passes (the depth counter: fixed, see known_findings.json)",
+    "stubs": ENG_STUBS, "assumptions": ["the timeout is monotone (once expired, stays expired)", "contract A for every search call"],
+    "level_text": "The real root loop runs against a symbolic move list, a symbolic expiry instant and an oracle for the deeper search. Decided for all of them at once: the search terminates, every move it searches and the move it returns belong to the list, no move is searched twice within a pass, "
+                  "an empty list gives 'no move' after a single pass, and when the limit cannot expire during the first pass a move is committed and the first pass searched every move exactly once.",
+    "level_note": "Assume-guarantee over the recursion; tiny bounds (measured: 3 moves x 3 expiry instants already exceeds 30 GB). What the oracle abstracts is stated in `outside`.",
+    "design_ref": "DESIGN.md section 4 C11",
+}
+PROPS["C12"] = {
+    "title": "A mate in one is always found and truthfully reported",
+    "groups": [dict(ENG, module="c11", only="^c12_")],
+    "functions": ["chess_engine::Engine::search_with root loop: best-score bookkeeping over Score's order, stop-on-mate"],
+    "bounds": "as C11 (<= 2 moves, expiry index k <= 2); the oracle's answers are arbitrary scores, 'mate in one for the mover' among them",
+    "outside": "the terminal detection inside alphabeta (no legal move + in check => mate score with the current depth, for the right colour) is NOT executed symbolically (it sits behind move_unchecked + legals in the same function); it is read, and its colour duality is pinned only through the policy lemmas of C13",
+    "stubs": ENG_STUBS, "assumptions": ["contract A; mate answers come from the oracle"],
+    "level_text": "Root-level half of the property: if a searched move's answer is 'mate in one for the mover' in a pass that completes, the search returns with exactly that score; a mate-in-one score for the mover is reported only if some searched move answered it, and then with a move.",
+    "level_note": "Only the root loop's handling of mate scores is decided; that a mating move's answer IS mate-in-one relies on alphabeta's terminal test, which is outside (stated).",
+    "design_ref": "DESIGN.md section 4 C12",
+}
+PROPS["C13"] = {
+    "title": "Search is colour-symmetric (equivariance lemmas)",
+    "groups": [dict(ENG, module="c13", jobs=3, mem_q=14)],
+    "functions": ["chess_engine::Score::cmp under the colour swap", "White/Black Policy::{is_better,update_cutoff,WORST_SCORE,BEST_SCORE,COLOR} (through hook wrappers)", "Engine::{eval,score_pieces,eval_endgame,insuffient_material} on a board and its mirror image"],
+    "bounds": "all scores (Raw(i32::MIN) excluded: it has no negation); all alpha/beta windows; evaluation: any placement with one king per side and <= 16 men per side, any side to move, any clock, positional evaluation off (the shipped default)",
+    "outside": "NOT DECIDED: the end-to-end statement search(mirror(B)) == -search(B) per completed depth - a relation between two recursive searches resting on move-order independence of alpha-beta, which a bounded query cannot supply. Decided are the component lemmas where a one-sided slip can live. "
+               "The king-mobility term of the endgame evaluation (generator output) is replaced by a mirror-invariant stand-in; the generator's own colour symmetry is C01 (both colours go through the same colour-parametrised reference).",
+    "stubs": ["Board::king_legals -> mirror-invariant stand-in (squares around the king not occupied by own men)", "tracing internals (as C11)"], "assumptions": [],
+    "level_text": "Component level only: the colour swap on scores reverses Score's order; the White and Black policies (better-than test, window update, extreme scores, cutoff test) are mirror images of each other under it; the evaluation of a mirrored board is the negated evaluation (material, endgame bonus incl. the distance and edge tables, fifty-move clock), and insufficient-material detection is colour blind.",
+    "level_note": "Claimed at lemma level and labelled so; the composition into C13's end-to-end statement is not machine-checked.",
+    "design_ref": "DESIGN.md section 4 C13",
+}
+PROPS["C15"] = {
+    "title": "Bot plugin: legality gate and threefold detection",
+    "groups": [dict(ENG, module="c15", jobs=3, mem_q=14)],
+    "functions": ["chess_bot::ChessBot::{make_move,set_board,board} (impl of chess_api::ChessEngineTrait)", "chess_engine::ThreeFold::{new,add,get} over std HashMap<Board,u8,IntHashBuilder> + Hash/Eq for Board", "chess_api::StableChessMove -> ChessMove"],
+    "bounds": "gate: fully symbolic board, symbolic stable move, free legality answer and free repetition answer; repetition table: 5 insertions, each of one of two distinct positions (symbolic choice per step)",
+    "outside": "the dlopen / abi_stable trait-object boundary (FFI) - the methods behind it are what runs; repetition histories longer than 5 insertions / more than 2 distinct positions; that the proposed move is legal is C11; Board::is_legal and make-move are free/marker functions here (their meaning: C01, C02)",
+    "stubs": ["Board::is_legal -> free boolean", "Board::move_unchecked_into -> marker transformation", "ThreeFold::add -> recorder with a free answer (gate queries only; the table query runs the real HashMap)"], "assumptions": [],
+    "level_text": "The real plugin methods run on a symbolic board and move: applied iff legal, otherwise position unchanged and reported invalid; the board reported is the make-move result; the repetition table is asked exactly once, with the new position, iff the move was applied, and its answer is the threefold flag; set_board and the constructor count the position they install. "
+                  "The real repetition table answers true exactly on the third insertion of an equal position (5 symbolic insertions over 2 positions).",
+    "level_note": "Long reversible manoeuvres are covered by the one-step structure (gate + counter + hash purity C04), not by exploring 8-ply histories.",
+    "design_ref": "DESIGN.md section 4 C15",
+}
+PROPS["C07"] = {
+    "title": "Safe API never violates an unchecked-operation precondition",
+    "groups": [{"crate": "core", "module": "c07", "flags": STUB, "timeout_q": 1500, "timeout_t": 3000, "mem_q": 20, "jobs": 3},
+               {"crate": "core", "module": "c18", "timeout_q": 600},
+               {"crate": "bmi2", "module": "c18_bmi2", "flags": STUB, "timeout_q": 900},
+               {"crate": "core", "module": "c17", "timeout_q": 900, "timeout_t": 3000, "mem_q": 30, "jobs": 1},
+               {"crate": "core", "module": "c08", "timeout_q": 600, "seeded_family": {"pattern": r"_(\d+)$", "count": 2, "always": {"*": []}, "thorough_all": True}},
+               {"crate": "core", "module": "c04", "only": "c04_zobrist_folds|c04_standard", "timeout_q": 600}],
+    "functions": ["Board::king_sq (pop_unchecked), RawBoard::{get,piece_of,piece_of_unchecked}, CastleRights::to_index (unreachable_unchecked), Board::move_unchecked_into incl. clock arithmetic", "MoveGen::set_mask raw-pointer compaction",
+                  "BitBoard::{pop,pop_unchecked}, BitBoardIter::nth (both paths)", "chess_lookup::{rook_moves,bishop_moves} table index", "BookMovesIter::next unchecked reads", "capacity of the 18-slot move list: asserted per generator unit in the C01 queries (entries <= pieces of the kind, +2 for the pawn unit)"],
+    "bounds": "each query from an ARBITRARY state satisfying the invariant the constructors establish (C06) and legal moves preserve (C02/C03) - one step suffices for sequences of any length; make-move with ANY clock values (0..=65535); set_mask with 0..=18 arbitrary entries; slider index: VERIF_SEED-chosen squares here, all 128 in C08",
+    "outside": "the recursion depth of the search (stack); Display/Debug formatting; the CLI / WASM front-ends; the site inventory cross-check planned in DESIGN.md was not built - the site list in DESIGN.md section 4 C07 is by reading",
+    "stubs": C02_STUBS[:2], "assumptions": C02_ASSUME[:1] + ["<= 8 aligned sliders (loop bound)"],
+    "level_text": "Every unchecked fast path named by the property is executed symbolically with Kani's default checks ON (pointer validity and bounds of unsafe reads/writes, arithmetic overflow, std's unsafe-precondition assertions, unreachable hints, arrayvec's debug assertion) from an arbitrary invariant-satisfying state, "
+                  "so a violation reachable by any sequence of safe calls would show as a failed check in one step.",
+    "level_note": "One-step induction relies on the invariant's closure (C02/C03) and establishment (C06). Kani models the dev profile; release-only behaviour is covered only where counterexamples are replayed natively.",
+    "design_ref": "DESIGN.md section 4 C07",
+}
+
 PROPS["LEM"] = {"title": "internal: F-level stubs == S-level geometry", "claimed": False,
                 "groups": [{"crate": "core", "module": "lemmas", "timeout_q": 600}]}
 
 # concretised (side to move, king square) index = turn*64 + square.  e1 = 4, e8 = 60.
-KING_ALWAYS = {"*": [], "king": [4, 64 + 60]}
+KING_ALWAYS = {"*": [], "king": [4, 124], "attacked_square": [4, 124]}
 PROPS["C01"] = {
-    "claimed": False,
     "title": "Generated moves are exactly the legal moves of chess",
     "groups": [
         {"crate": "core", "module": "lemmas", "timeout_q": 600},
-        {"crate": "core", "module": "c01_units", "flags": NODEF + STUB, "timeout_q": 600, "timeout_t": 3000, "mem_q": 10,
-         "seeded_family": {"pattern": r"_k_(\d+)$", "count": 2, "always": KING_ALWAYS}},
+        {"crate": "core", "module": "c01_units", "flags": NODEF + STUB, "timeout_q": 900, "timeout_t": 3000, "mem_q": 10, "jobs": 8,
+         "seeded_family": {"pattern": r"_k_(\d+)$", "count": 1, "always": KING_ALWAYS, "thorough_all": False, "thorough_count": 6}},
     ],
+    "functions": ["chess_movegen iter/pieces.rs: PieceType::legals::<IN_CHECK|NO_CHECK> for Knight/Bishop/Rook/Queen, Pawn::legals (pushes, captures, promotion flag, en passant via is_legal_en_passant), King::king_legals (steps + castling), check_mask, is_legal_king_position",
+                  "each through Board::verif_unit_legals(unit, in_check, mask) with a symbolic destination mask (legals_masked semantics)"],
+    "bounds_quick": "per query: generator unit (6 piece kinds x in-check / not-in-check = 12) with side to move and the MOVER's king square concrete (index = turn*64+square) and everything else symbolic: all other pieces, rights, en-passant file, "
+                    "the probe move (from,to,promotion) and the destination mask. <= 2 pieces of the unit's kind for the mover (each source square is handled by its own loop iteration), <= 8 enemy sliders in the attacked-square test. "
+                    "quick: 1 VERIF_SEED-chosen king square per unit, plus e1/White and e8/Black for the king unit (castling) and the attacked-square unit",
+    "bounds_thorough": "as quick with 6 seeded king squares per unit, and the variants with symbolic side to move and king square (`_t_all`) for the non-king units",
+    "outside": "more than 2 pieces of one kind moving in the same query (the per-piece loop body reads only the board, so two pieces exercise every interaction between loop iterations: ordering, list push); king squares not selected in this run; "
+               "the dispatch in collect_moves on the number of checkers (3 lines, read); Board::is_legal = legals().any() is C10's next query; Display text of moves",
+    "stubs": ["chess_lookup::{between,line,rook_moves,bishop_moves,rook_rays,bishop_rays,knight_moves,king_moves,pawn_moves,pawn_attacks_moves} -> loop-free geometry (spec/fast.rs), proven equal to the loop definitions (lemmas) and to the real tables (C08/C09)",
+              "king unit only: Board::is_legal_king_position -> reference 'square not attacked with the king lifted', proven equal to the real function by the c01_attacked_square_* queries of the same run"],
+    "assumptions": ["validity predicate V on the position (C06's list + no pawn on rank 1/8); cached pinned/checkers equal their definitions (C03 shows every constructor and make-move produce exactly those)",
+                    "non-king units are only called with exactly 0 or 1 checker (collect_moves' dispatch)"],
+    "level_text": "For a symbolic valid position, a symbolic move and a symbolic destination mask, each generator unit's real code is run and ONE assertion decides soundness, completeness and 'exactly once': "
+                  "number of list entries yielding the move == [reference rules say legal and destination in mask]. The reference rules are written from the FIDE rules (pseudo-legal by geometry, play on a copy, king not attacked) and validated natively against the repository's own perft numbers. "
+                  "The solver quantifies over every placement at once, so the rare interactions (en passant uncovering a rank attack, pinned pawn capturing along the pin, castling through each attacker type) need not be thought of.",
+    "level_note": "Compositional: units verified separately (the whole generator in one query was measured infeasible: 46 GB). List invariants the iterator relies on (entry belongs to an own piece, non-empty under the mask, no own-piece destination) are asserted too.",
+    "design_ref": "DESIGN.md section 4 C01",
 }
